@@ -19,10 +19,9 @@ events:
   ['B', req]            first request that is complete but no proxy request (answered 400)
   ['C', req, cuts]      follow-up client bytes (a complete request, segmented at cuts)
   ['F', req, ok, cuts, [req, …]] / ['C', req, cuts, [req, …]]  the same with further complete requests packed
-                        into the write that carries the end of `req` (the code parses the first request of
-                        a read; what follows it in the same read is never looked at: follow-ups — the
-                        finished pipeline parser is discarded with its buffer, first request — it stays
-                        unread in request.buffer)
+                        into the write that carries the end of `req`: every complete request of a read is
+                        handled in order (handle_client_request chain, then forwarded); what follows the
+                        first request of the connection is handed to on_client_data
   ['U', hex]  upstream sends bytes      ['UE'] upstream closes
   ['CE'] client half-closes             ['CA'] client disappears
   ['CR'] client resets the connection (RST): afterwards recv/send/shutdown on the proxy side of the client
@@ -61,6 +60,7 @@ THEOREMS = [
     'Px.Chain.C09_order', 'Px.Chain.C09_dataflow', 'Px.Chain.C09_short_circuit',
     'Px.Chain.C09_before_chain_drop', 'Px.Chain.C09_before_chain_reject', 'Px.Chain.C09_before_chain_pass',
     'Px.Chain.C09_client_request_chain_first', 'Px.Chain.C09_client_request_chain_later',
+    'Px.Chain.C09_packed_followups', 'Px.Chain.C09_packed_first',
     'Px.Chain.C09_upstream_chunk_chain', 'Px.Chain.C09_reject_response',
     'Px.Chain.C09_lifecycle', 'Px.Chain.C09_lifecycle_counts', 'Px.Chain.C09_lifecycle_once',
     'Px.Chain.C09_lifecycle_not_dispatched',
@@ -77,7 +77,8 @@ ASSUMPTIONS = [
     'TLS interception, upstream connection pool, event queue and PROXY protocol are off; resolve_dns never sets '
     'a source address; plugin descriptor hooks are the defaults',
     'plugin class qualnames are distinct (HttpProxyPlugin.plugins is keyed by name())',
-    'follow-up requests arrive one complete request per client write sequence and are well formed; the parser '
+    'requests are well formed; a read may carry several complete requests, the last write of an event ends on a '
+    'request boundary; the parser '
     '(request line, URL, body framing) is not part of this model: the harness hands the model the fields of the '
     'requests it generated (header lines are parsed by the model)',
     'shutdown() is called exactly once per connection (the executor contract, C10); C09_lifecycle_counts '
@@ -646,15 +647,27 @@ def prog_str(p):
     return ':'.join([str(p[0])] + [act_str(a) for a in p[1:]])
 
 
+def ev_extra(ev):
+    return ev[4] if ev[0] == 'F' and len(ev) > 4 else ev[3] if ev[0] == 'C' and len(ev) > 3 else []
+
+
+def more_str(reqs):
+    """`req~rest^…`: the requests completing in a read, each with the bytes that follow it in that read"""
+    raws = [req_bytes(r) for r in reqs]
+    return '^'.join('%s~%s' % (req_model(r), hx(b''.join(raws[i + 1:]))) for i, r in enumerate(reqs)) or '-'
+
+
 def ev_strs(ev):
     k = ev[0]
+    extra = ev_extra(ev)
     if k == 'F':
-        return ['F:%s:%d' % (req_model(ev[1]), 1 if ev[2] else 0)]
+        return ['F:%s:%d:%s:%s' % (req_model(ev[1]), 1 if ev[2] else 0, hx(b''.join(req_bytes(r) for r in extra)),
+                                   more_str(extra))]
     if k == 'B':
         return ['B']
     if k == 'C':
         segs = ev_segments(ev)
-        return ['C:%s:None' % hx(s) for s in segs[:-1]] + ['C:%s:%s' % (hx(segs[-1]), req_model(ev[1]))]
+        return ['C:%s:-' % hx(s) for s in segs[:-1]] + ['C:%s:%s' % (hx(segs[-1]), more_str([ev[1]] + extra))]
     if k == 'U':
         return ['U:' + (ev[1] or '-')]
     if k == 'CR':
@@ -775,10 +788,9 @@ def is_call(t):
     return t.startswith('c') and not t.startswith('conn.')
 
 
-def check_chain(case, order, toks, hook, first=None, auth_ok=True):
-    """order / data flow / short circuit of the chain of `hook` seen in `toks`.
+def check_calls(case, order, calls, hook, first=None, auth_ok=True):
+    """order / data flow / short circuit of ONE chain of `hook` given as its calls.
     Returns (failure | None, how it ended, action that ended it, value left by the chain)."""
-    calls = [tok_parts(t) for t in toks if is_call(t) and tok_parts(t)[1] == hook]
     if not calls:
         return None, 'none', None, first
     idx = HOOKS.index(hook) + 1
@@ -807,14 +819,51 @@ def check_chain(case, order, toks, hook, first=None, auth_ok=True):
     return None, 'none', None, first
 
 
-def edits_missing(case, order, up, first):
-    """every edit a plugin made to a request that all plugins passed must be in the bytes forwarded"""
+def check_chain(case, order, toks, hook, first=None, auth_ok=True):
+    """the same for the single chain of `hook` in `toks`"""
+    calls = [tok_parts(t) for t in toks if is_call(t) and tok_parts(t)[1] == hook]
+    return check_calls(case, order, calls, hook, first, auth_ok)
+
+
+def check_chains(case, order, toks, hook, firsts):
+    """several consecutive chains of `hook` in one group (one per complete request of a read): every chain
+    starts at the first configured plugin with the corresponding value of `firsts`; returns
+    (failure | None, [(how, action, value) per chain])"""
+    calls = [tok_parts(t) for t in toks if is_call(t) and tok_parts(t)[1] == hook]
+    chains = []
+    for c in calls:
+        if not chains or (order and c[0] == order[0]):
+            chains.append([])
+        chains[-1].append(c)
+    res = []
+    for i, ch in enumerate(chains):
+        if i >= len(firsts):
+            return hook + '-chain-ran-more-often-than-there-are-requests', res
+        if res and res[-1][0] == 'raised':
+            return hook + '-chain-ran-after-a-raise', res
+        f, how, act, val = check_calls(case, order, ch, hook, firsts[i])
+        if f:
+            return f, res
+        res.append((how, act, val))
+    return None, res
+
+
+def is_upgrade(req):
+    names = [L(h).split(b':', 1)[0].strip(WS).lower() for h in req['h']]
+    return req['v'] == 'HTTP/1.1' and b'connection' in names and b'upgrade' in names
+
+
+def edits_missing(case, order, up, first, ndone=1):
+    """every edit a plugin made to a request that all plugins passed must be in the bytes forwarded
+    (`ndone` forwarded requests in `up`; `first`: the first of them also went through the before chain)"""
     for label in order:
         p = prog_of(case, label)
         if p is None:
             continue
-        val = b'c' if p[2] in ('M', 'N') else (b'b' if first and p[1] in ('M', 'N') else None)
-        if val is not None and b'\r\nX-P' + label.encode() + b': ' + val + b'\r\n' not in up:
+        if p[2] in ('M', 'N'):
+            if up.count(b'\r\nX-P' + label.encode() + b': c\r\n') < ndone:
+                return 'forwarded-request-lacks-a-plugins-edit'
+        elif first and p[1] in ('M', 'N') and b'\r\nX-P' + label.encode() + b': b\r\n' not in up:
             return 'forwarded-request-lacks-a-plugins-edit'
     return None
 
@@ -886,24 +935,45 @@ def judge(case, order, groups, sd):
         return 'connect-before-the-before_upstream_connection-chain-finished'
     if conns and not ev[2]:
         return None                      # connect failed: 502, nothing more to judge here
-    f, how2, act2, _ = check_chain(case, order, toks, 'creq', val)
+    tunnel = req_fields(ev[1])[3]
+    upstream = bool(conns)
+    packed = ev_extra(ev)
+    pipelined = upstream and not tunnel
+    f, res = check_chains(case, order, toks, 'creq', [val] + ([spec_digest(r) for r in packed] if pipelined else []))
     if f:
         return f
-    if order and how2 == 'none':
+    if order and not res:
         return 'handle_client_request-chain-did-not-run'
-    if how2 in ('dropped', 'raised') and up:
-        return 'request-forwarded-after-handle_client_request-%s' % how2
-    if how2 == 'done' and up and not req_fields(ev[1])[3]:
-        f = edits_missing(case, order, up, first=(how == 'done' or how == 'dropped'))
+    st = {'upgraded': False, 'dead': False}
+    if order:
+        how2, act2, _ = res[0]
+        if pipelined:
+            f = judge_requests(case, order, [ev[1]] + packed, res, up, st,
+                               first=(how in ('done', 'dropped')), allcl=allcl, lost=lost, head=True)
+            if f:
+                return f
+        elif how2 in ('dropped', 'raised') and up and not packed:
+            return 'request-forwarded-after-handle_client_request-%s' % how2
+        if any(r[0] == 'raised' for r in res):
+            st['dead'] = True
+        if how2 == 'raised':
+            want = reject_bytes(act2)
+            if not allcl.startswith(want) and not (lost and want.startswith(allcl)):
+                return 'reject-response-differs-from-the-plugins-choice'
+    if packed and not upstream and not (order and res[0][0] == 'raised'):
+        f, h3, a3, _ = check_chain(case, order, toks, 'cdata', hx(b''.join(req_bytes(r) for r in packed)))
         if f:
             return f
-    if how2 == 'raised':
-        want = reject_bytes(act2)
-        if not allcl.startswith(want) and not (lost and want.startswith(allcl)):
-            return 'reject-response-differs-from-the-plugins-choice'
+        if order and h3 == 'none':
+            return 'handle_client_data-not-called-for-bytes-behind-the-first-request'
     # later events
+    if td:
+        st['dead'] = True
     for (gev, last, seg), g in zip(group_events(case)[1:], groups[1:]):
         k = gev[0]
+        was_dead = st['dead']
+        if g[3] or k in ('CE', 'CA', 'CR', 'UE'):
+            st['dead'] = True
         if k == 'C':
             if any('.cdata.' in t for t in g[0]):
                 f, h3, a3, _ = check_chain(case, order, g[0], 'cdata', hx(seg))
@@ -911,24 +981,24 @@ def judge(case, order, groups, sd):
                     return f
                 if g[1]:
                     return 'bytes-forwarded-without-upstream'
-                if h3 == 'raised' and reject_bytes(a3) not in allcl and not lost:
-                    return 'reject-response-differs-from-the-plugins-choice'
+                if h3 == 'raised':
+                    st['dead'] = True
+                    if reject_bytes(a3) not in allcl and not lost:
+                        return 'reject-response-differs-from-the-plugins-choice'
             if any('.creq.' in t for t in g[0]):
                 if not last:
                     return 'handle_client_request-ran-on-incomplete-follow-up'
-                f, h3, a3, _ = check_chain(case, order, g[0], 'creq', spec_digest(gev[1]))
+                reqs = [gev[1]] + ev_extra(gev)
+                f, res = check_chains(case, order, g[0], 'creq', [spec_digest(r) for r in reqs])
                 if f:
                     return 'follow-up-' + f
-                if h3 in ('dropped', 'raised') and g[1]:
-                    return 'follow-up-forwarded-after-handle_client_request-%s' % h3
-                if h3 == 'done' and not g[1]:
-                    return 'follow-up-not-forwarded-although-all-plugins-passed-it'
-                if h3 == 'done':
-                    f = edits_missing(case, order, g[1], first=False)
-                    if f:
-                        return 'follow-up-' + f
-                if h3 == 'raised' and reject_bytes(a3) not in allcl and not lost:
-                    return 'reject-response-differs-from-the-plugins-choice'
+                f = judge_requests(case, order, reqs, res, g[1], st, first=False, allcl=allcl, lost=lost, head=False)
+                if f:
+                    return 'follow-up-' + f
+                if any(r[0] == 'raised' for r in res):
+                    st['dead'] = True
+            elif last and order and pipelined and not st['upgraded'] and not was_dead:
+                return 'follow-up-handle_client_request-chain-did-not-run'
         elif k == 'U':
             if any('.up.' in t for t in g[0]):
                 f, _, _, _ = check_chain(case, order, g[0], 'up', gev[1] or '-')
@@ -936,6 +1006,39 @@ def judge(case, order, groups, sd):
                     return f
         if any(is_call(t) and tok_parts(t)[1] == 'before' for t in g[0]):
             return 'before_upstream_connection-ran-again'
+    return None
+
+
+def judge_requests(case, order, reqs, res, up, st, first, allcl, lost, head):
+    """the complete requests of one read against the outcome of their handle_client_request chains:
+    every one of them is handled, in order, until a plugin raises or an upgrade request was forwarded"""
+    ndone = 0
+    stopped = False
+    for i, r in enumerate(reqs):
+        if i >= len(res):
+            if not (stopped or st['upgraded']):
+                return 'request-packed-in-the-read-was-not-handled'
+            break
+        how, act, _ = res[i]
+        if how == 'done':
+            ndone += 1
+            if not (head and i == 0) and is_upgrade(r):
+                st['upgraded'] = True
+        elif how == 'raised':
+            stopped = True
+            if not (head and i == 0) and reject_bytes(act) not in allcl and not lost:
+                return 'reject-response-differs-from-the-plugins-choice'
+    passthrough = st['upgraded']
+    if ndone == 0 and up and not passthrough:
+        return 'request-forwarded-after-handle_client_request-none-or-raise'
+    if ndone and not up:
+        return 'request-not-forwarded-although-all-plugins-passed-it'
+    if ndone and not passthrough:
+        heads = len(re.findall(rb' HTTP/1\.[01]\r\n', up))
+        if heads != ndone:
+            return 'number-of-forwarded-requests-differs-from-the-requests-all-plugins-passed'
+    if ndone:
+        return edits_missing(case, order, up, first=first and res[0][0] == 'done', ndone=ndone)
     return None
 
 
